@@ -55,27 +55,27 @@ def check_state(arm, tr, where):
     raw = tr.spec.fk(tr.base, tr.M, np.asarray(tr.theta, dtype=float))       # the limit-free solver may legitimately leave a state outside the limits
     if np.max(np.abs(ee - raw)) <= TOL * max(1.0, np.max(np.abs(raw))):
         want = raw
-    if np.max(np.abs(arm.getBasePos().gTM() - tr.base)) > TOL:
+    if G.gt(np.max(np.abs(arm.getBasePos().gTM() - tr.base)), TOL):
         out.append(('state:base', 'after %s: reported base pose differs from the base the arm was moved to by %.3g' % (where, G.maxdiff(arm.getBasePos().gTM(), tr.base))))
-    if np.max(np.abs(ee - want)) > TOL * max(1.0, np.max(np.abs(want))):
+    if G.gt(np.max(np.abs(ee - want)), TOL * max(1.0, np.max(np.abs(want)))):
         out.append(('state:ee' + band(tr.theta, G.maxdiff(ee, want), np.max(np.abs(want))), 'after %s: reported tool pose differs from base*prod(exp)*home at the stored joint vector by %.3g' % (where, G.maxdiff(ee, want))))
     th_arm = np.asarray(arm._theta, dtype=float).reshape(-1)
     impl = tr.spec.fk(tr.base, tr.M, clamp(th_arm, tr.spec))
     impl_raw = tr.spec.fk(tr.base, tr.M, th_arm)
     if np.max(np.abs(ee - impl_raw)) <= TOL * max(1.0, np.max(np.abs(impl_raw))):
         impl = impl_raw
-    if np.max(np.abs(ee - impl)) > TOL * max(1.0, np.max(np.abs(impl))):
+    if G.gt(np.max(np.abs(ee - impl)), TOL * max(1.0, np.max(np.abs(impl)))):
         out.append(('state:ee-vs-theta' + band(th_arm, G.maxdiff(ee, impl), np.max(np.abs(impl))), 'after %s: reported tool pose differs from the pose implied by the stored joint state by %.3g' % (where, G.maxdiff(ee, impl))))
     try:
         with contextlib.redirect_stdout(io.StringIO()):
             jt = arm.getJointTransforms()
-        if np.max(np.abs(jt[0].gTM() - tr.base)) > TOL and getattr(arm, '_fixed_base_offset', None) is None:
+        if G.gt(np.max(np.abs(jt[0].gTM() - tr.base)), TOL) and getattr(arm, '_fixed_base_offset', None) is None:
             out.append(('state:joint0', 'after %s: first joint-frame pose is not the base pose' % where))
         inside = bool(np.all(th_arm >= tr.spec.mins - 1e-12) and np.all(th_arm <= tr.spec.maxs + 1e-12))   # only the limit-free solver can leave the state outside the limits; queries then clamp by design
-        if inside and np.max(np.abs(jt[-1].gTM() - ee)) > TOL * max(1.0, np.max(np.abs(ee))):
+        if inside and G.gt(np.max(np.abs(jt[-1].gTM() - ee)), TOL * max(1.0, np.max(np.abs(ee)))):
             out.append(('state:joint-last' + band(th_arm, G.maxdiff(jt[-1].gTM(), ee), np.max(np.abs(ee))), 'after %s: last joint-frame pose differs from the reported tool pose by %.3g' % (where, G.maxdiff(jt[-1].gTM(), ee))))
         J0 = arm.jacobian(); J1 = arm.jacobian(th_arm.copy())
-        if np.max(np.abs(J0 - J1)) > TOL:
+        if G.gt(np.max(np.abs(J0 - J1)), TOL):
             out.append(('state:default-jacobian', 'after %s: jacobian() with defaulted argument does not refer to the stored state' % where))
     except Exception as e:
         out.append(('raises:getJointTransforms:%s' % type(e).__name__, 'after %s: %r' % (where, e)))
@@ -99,7 +99,7 @@ def apply(arm, tr, op, rnd):
             T = arm.FK(th.copy()).gTM()
             tr.theta = clamp(th, tr.spec)
             want = tr.fk(th)
-            if np.max(np.abs(T - want)) > TOL * max(1.0, np.max(np.abs(want))):
+            if G.gt(np.max(np.abs(T - want)), TOL * max(1.0, np.max(np.abs(want)))):
                 out.append(('fk' + band(clamp(th, tr.spec), G.maxdiff(T, want), np.max(np.abs(want))), 'FK(theta) differs from base*prod(exp(S_i theta_i))*home (theta clamped to the limits) by %.3g' % G.maxdiff(T, want)))
         elif k in ('IK', 'IKfree'):
             goal = tr.fk(np.array(op[1], dtype=float))
